@@ -203,15 +203,21 @@ def _do_slice(c, P, V, res):
     import setigen as stg
     l, r = c['l'], c['r']
     m, n = P.data.shape
+    la, ra = l, r
+    # (sub-box) the same bounds written the Python way from the end of the band: [l - n, r), [l, r - n), [l - n, r - n)
+    if c.get('neg') in ('l', 'lr'):
+        la = l - n
+    if c.get('neg') in ('r', 'lr'):
+        ra = r - n
     for api in ('method', 'func'):
         site = 'get_slice'
         p0, fs0, ts0 = np.array(P.data, copy=True), np.array(P.fs, copy=True), np.array(P.ts, copy=True)
         res['n'] += 1
         try:
             with contextlib.redirect_stdout(io.StringIO()):
-                S = P.get_slice(l, r) if api == 'method' else stg.get_slice(P, l, r)
+                S = P.get_slice(la, ra) if api == 'method' else stg.get_slice(P, la, ra)
         except Exception as e:
-            V(site, 'raised', '%s(%d, %d): %s: %s' % (api, l, r, type(e).__name__, e))
+            V(site, 'raised', '%s(%d, %d): %s: %s' % (api, la, ra, type(e).__name__, e))
             continue
         if not isinstance(S, stg.Frame):
             V(site, 'type', 'returned %s' % type(S).__name__)
@@ -219,13 +225,13 @@ def _do_slice(c, P, V, res):
         w = r - l
         if S.data.shape != (m, w) or tuple(S.shape) != (m, w) or S.fchans != w or S.tchans != m:
             V(site, 'shape', 'slice [%d,%d) of %s has data %s shape %s fchans %s tchans %s'
-              % (l, r, (m, n), S.data.shape, S.shape, S.fchans, S.tchans))
+              % (la, ra, (m, n), S.data.shape, S.shape, S.fchans, S.tchans))
         elif not np.array_equal(S.data, p0[:, l:r]):
-            V(site, 'data_columns', 'data of slice [%d,%d) are not columns %d..%d of the parent' % (l, r, l, r - 1))
+            V(site, 'data_columns', 'data of slice [%d,%d) are not columns %d..%d of the parent' % (la, ra, l, r - 1))
         e = _fs_close(S.fs, fs0[l:r])
         if e > K_AXIS + 0.01:
-            V(site, 'fs_columns', 'fs of slice [%d,%d) = %r..%r, parent columns %r..%r (%.3g ulp)'
-              % (l, r, S.fs[0], S.fs[-1], fs0[l], fs0[r - 1], e))
+            V(site, 'fs_columns', 'fs of slice [%d,%d) of %d channels = %r..%r, parent columns %r..%r (%.3g ulp)'
+              % (la, ra, n, S.fs[0], S.fs[-1], fs0[l], fs0[r - 1], e))
         if _fs_close(S.ts, ts0) > K_AXIS + 0.01:
             V(site, 'ts', 'time axis of the slice differs from the parent')
         _parent_intact(P, p0, fs0, V, site)
@@ -666,6 +672,12 @@ def run(ctx):
         for l in range(n):
             for r in range(l + 1, n + 1):
                 sl.append(dict(p, op='slice', l=l, r=r))
+                if l > 0:
+                    sl.append(dict(p, op='slice', l=l, r=r, neg='l'))
+                if r < n:
+                    sl.append(dict(p, op='slice', l=l, r=r, neg='r'))
+                if l > 0 and r < n:
+                    sl.append(dict(p, op='slice', l=l, r=r, neg='lr'))
         for q in _q_list(m, n, ctx.tier):
             dd.append(dict(p, op='dedrift', q=q))
         dd.append(dict(p, op='dedrift_nometa'))
